@@ -238,9 +238,23 @@ def check_calendar(case, ctx):
     x = out
     if case["scale"]:
         x = x >> fm.adapters.Scale(1.0)
+    # optionally a second fixed calendar delay upstream of the first adapter: the shifts are applied one after the
+    # other (calendar arithmetic is not additive: 31 Mar - 1 month - 1 month = 28 Jan, 31 Mar - 2 months = 31 Jan)
+    delay_up = relativedelta(**case["delay_up"]) if case.get("delay_up") else None
+    if delay_up is not None:
+        x = x >> fm.adapters.DelayFixed(delay_up)
+        ctx.event("two-calendar-delays")
     x >> ad >> inp
     inp.ping()
     inp.exchange_info()
+    try:
+        from finam.schedule import _find_dependencies  # pylint: disable=import-outside-toplevel
+    except ImportError:
+        _find_dependencies = None
+
+    class _Comp:  # what the driver's dependency walk needs from a component
+        inputs = {"i": inp}
+
     log = []
     orig = out.get_data
 
@@ -269,6 +283,16 @@ def check_calendar(case, ctx):
             want, clamped = start, True
         else:
             unclamped = True
+        if delay_up is not None:
+            want = max(want - delay_up, start)
+        assumed = None
+        if _find_dependencies is not None:
+            try:
+                deps = _find_dependencies(_Comp, {out: object()}, t)
+                assumed = deps[out][0] if out in deps else None
+            except (TypeError, AttributeError, KeyError, IndexError):
+                _find_dependencies = None  # private helper changed its interface: sub-oracle skipped
+                ctx.event("driver-view-unavailable")
         try:
             r = inp.pull_data(t)
         except fm.FinamTimeError as e:
@@ -277,6 +301,9 @@ def check_calendar(case, ctx):
         reqs.append(t)
         if not log or log[-1] != want:
             ctx.violation("calendar-delay-request", f"{case['kind']} delay {case['delay']} start {start.date()}: request {t.date()} reached the source as {log[-1] if log else None}, expected {want}")
+            return
+        if assumed is not None and assumed != log[-1]:
+            ctx.violation("calendar-driver-view", f"{case['kind']} delays {case['delay']} / {case.get('delay_up')} start {start.date()}: for a pull at {t.date()} the driver assumes source time {assumed}, the pull asks the source for {log[-1]}")
             return
         got = float(np.ravel(hs.magnitude(r))[0])
         exp = float((want - start).days)
@@ -308,7 +335,10 @@ def calendar_case(draw):
     kind = draw(st.sampled_from(["dfix", "dfix", "dpull"]))
     npubs = 470 if "years" in delay else 140
     reqs = draw(st.lists(st.sampled_from([0, 1, 1, 1, 2, 3]), min_size=npubs // 2, max_size=npubs))
-    return {"start": [y, m, d], "delay": delay, "kind": kind, "steps": draw(st.integers(1, 3)), "scale": draw(st.booleans()), "npubs": npubs, "reqs": reqs}
+    delay_up = None
+    if draw(st.integers(0, 2)) == 0:
+        delay_up = draw(st.sampled_from([{"months": 1}, {"months": 1}, {"months": 2}, {"days": 3}, {"months": 1, "days": 1}]))
+    return {"start": [y, m, d], "delay": delay, "delay_up": delay_up, "kind": kind, "steps": draw(st.integers(1, 3)), "scale": draw(st.booleans()), "npubs": npubs, "reqs": reqs}
 
 
 def parts():
